@@ -49,7 +49,8 @@ static int make_page(Src &s, vbi_decoder *dec, vbi_page *pg, bool *enhanced) {
 	}
 	unsigned pgno;
 	std::vector<tx::Packet> pk;
-	if (kind <= 3) { pgno = l25::gen_l25(s, pk); *enhanced = true; }
+	if (kind <= 2) { pgno = l25::gen_l25(s, pk); *enhanced = true; }
+	else if (kind == 3) { pgno = l25::gen_objgraph(s, pk); *enhanced = true; }
 	else {
 		unsigned mag = 1 + s.pick(8), page = s.pick(10) << 4 | s.pick(10); pgno = mag << 8 | page;
 		tx::HeaderFlags f; f.c4_erase = true; f.national = s.pick(7); f.c5_newsflash = s.chance(1, 8); f.c6_subtitle = s.chance(1, 8);
